@@ -32,6 +32,8 @@ def trees():
     T['typed'] = [('block', 'B', 'i32', [('const', 'v'), ('const', 'w'), ('br_if', 'B'), ('drop',), ('const', 'u')]), ('drop',),
                   ('const', 'cond'), ('if', 'C', 'A', 'i32', [('const', 'p')], [('const', 'q')]), ('drop',)]
     T['locals'] = [('lget', 0), ('lset', 3), ('lget', 2), ('drop',), ('lget', 4), ('drop',), ('block', 'B', None, [('lget', 1), ('drop',), ('lget', 3), ('drop',)]), ('lget', 5), ('drop',)]
+    T['orphan-seq'] = [('lget', 1), ('drop',), ('orphan', 'O1', [('lget', 2), ('drop',), ('lget', 4), ('lset', 4)]),
+                       ('block', 'B', None, [('orphan', 'O2', [('lget', 5), ('drop',)]), ('lget', 3), ('drop',)]), ('lget', 3), ('drop',)]
     T['dead-tail'] = [('block', 'B', None, [('br', 'B'), ('const', 'dead'), ('drop',)]), ('return',), ('const', 'dead2'), ('drop',)]
     return T
 
@@ -171,7 +173,7 @@ class Build:
             elif self.strategy == 'middle':
                 # first, last, then the middle ones inserted at their final positions
                 if len(order) >= 3:
-                    plan = [(order[0], None), (order[-1], None)] + [(i, i) for i in order[1:-1]]
+                    plan = [(order[0], None), (order[-1], None)] + [(i, sum(1 for nd_ in nodes[:i] if nd_[0] != 'orphan')) for i in order[1:-1]]   # final position (an orphan node adds no instruction)
                 else:
                     plan = [(i, None) for i in order]
             else:
@@ -187,6 +189,9 @@ class Build:
         nd = nodes[i]
         nxt = lambda s2: self.run_plan(s2, bref, nodes, plan, k + 1, cont, depth)
         kind = nd[0]
+        if kind == 'orphan':
+            # a dangling sequence that is filled and never attached: it is not part of the function (flatten ignores it)
+            return self.dangling_child(st, bref, nd[1], None, nd[2], lambda s2, cid: nxt(s2), depth)
         if kind in ('block', 'loop'):
             if self.strategy == 'dangling':
                 return self.dangling_child(st, bref, nd[1], nd[2], nd[3],
@@ -361,7 +366,7 @@ def run(tier, seed, only=None):
     def job(ctx, report, _name, tname, nodes, strategy, params):
         run_case(ctx, report, tname, nodes, strategy, table, timeout_ms, params=params)
     pc.run_parallel(ctx, report, job, items)
-    report.bounds = {'generated trees': '%d drawn trees (VERIF_SEED; depth <= 3, up to 5 groups per sequence: const/drop, local get/set, br_if / br to any enclosing construct incl. the function body, block, loop, if/else, typed block, dead tails), strategies and parameter orders rotated' % ngen, 'trees': '6 shapes (flat, nested block/loop with branches to three enclosing constructs incl. the function body, if/else with branches, typed block and if, five used locals of three types plus the parameter, dead tails)',
+    report.bounds = {'generated trees': '%d drawn trees (VERIF_SEED; depth <= 3, up to 5 groups per sequence: const/drop, local get/set, br_if / br to any enclosing construct incl. the function body, block, loop, if/else, typed block, dead tails), strategies and parameter orders rotated' % ngen, 'trees': '7 shapes (orphan-seq: filled dangling sequences that are never attached name locals nothing else uses; flat, nested block/loop with branches to three enclosing constructs incl. the function body, if/else with branches, typed block and if, five used locals of three types plus the parameter, dead tails)',
                      'insertion orders': 'append; every instruction inserted at position 0 in reverse; first+last appended then the middle inserted at final positions (the *_at methods); dangling sequences filled then attached with instr(Block/Loop/IfElse)',
                      'constants': 'symbolic'}
     report.assumptions = ['the module starts from the real Module::default(); types/locals/exports are added through the real APIs', 'well-typedness of the built tree is by construction of the shapes (no validator run)']
